@@ -12,7 +12,7 @@ VERIF = B.VERIF
 KNOWN = os.path.join(VERIF, "known_findings.jsonl")
 # Evidence and replay files of a run against a scratch tree (VERIF_REPO=<worktree with a seeded change>) must not overwrite
 # the evidence of /repo itself: they go under the build directory.
-_SCRATCH = os.path.realpath(B.REPO) != "/repo"
+_SCRATCH = os.path.realpath(B.REPO) != "/repo" or bool(os.environ.get("VERIF_EVID_SCRATCH"))   # (soak runs over many seeds set the latter)
 EVID = os.path.join(B.BUILD, "scratch_evidence") if _SCRATCH else os.path.join(VERIF, "evidence")
 REPLAY = os.path.join(B.BUILD, "scratch_replay") if _SCRATCH else os.path.join(VERIF, "replay")
 
